@@ -22,12 +22,13 @@ import (
 )
 
 type replayDriver struct {
-	Key   string
-	Pkg   string
-	Gets  [][2]string // name, smt term
-	Body  string
-	File  string
-	Label string // optional: only for obligations containing this text
+	Key         string
+	Pkg         string
+	Gets        [][2]string // name, smt term
+	Body        string
+	File        string
+	Label       string // optional: only for obligations containing this text
+	ConfirmText string // optional: output text that also confirms (e.g. a crash inside a goroutine)
 }
 
 func loadDrivers() []*replayDriver {
@@ -52,6 +53,8 @@ func loadDrivers() []*replayDriver {
 				d.Pkg = strings.TrimSpace(ln[4:])
 			case strings.HasPrefix(ln, "label:"):
 				d.Label = strings.TrimSpace(ln[6:])
+			case strings.HasPrefix(ln, "confirm-text:"):
+				d.ConfirmText = strings.TrimSpace(ln[13:])
 			case strings.HasPrefix(ln, "get "):
 				kv := strings.SplitN(ln[4:], "=", 2)
 				if len(kv) == 2 {
@@ -212,6 +215,9 @@ func tryReplay(prog *Program, v violation) (bool, string) {
 		return "0"
 	})
 	ok, testOut := runOverlayTest(prog.RepoDir, drv.Pkg, body, dir)
+	if !ok && drv.ConfirmText != "" && strings.Contains(testOut, drv.ConfirmText) {
+		ok = true
+	}
 	report.WriteString("---- generated test ----\n" + body + "\n---- go test output ----\n" + testOut + "\n")
 	if ok {
 		report.WriteString("RESULT: the violation was reproduced on the real code\n")
